@@ -1107,6 +1107,31 @@ func (in *Interp) callBuiltin(fr *frame, fn *ssa.Builtin, args []value, call *ss
 		return nil
 	case "min", "max":
 		return in.minmax(fn.Name() == "min", args, call)
+	case "String": // unsafe.String(ptr, len)
+		n := in.concreteInt(args[1], "unsafe.String len")
+		switch p := args[0].(type) {
+		case *unsafeData:
+			return mkStr(p.bytes(in)[:n])
+		case *value:
+			if p == nil && n == 0 {
+				return ""
+			}
+		}
+		panic(unsupported(fmt.Sprintf("unsafe.String on pointer %T at %s", args[0], in.where())))
+	case "StringData":
+		return &unsafeData{str: args[0]}
+	case "SliceData":
+		return &unsafeData{elems: args[0].([]value)}
+	case "Slice": // unsafe.Slice(ptr, len)
+		n := in.concreteInt(args[1], "unsafe.Slice len")
+		switch p := args[0].(type) {
+		case *unsafeData:
+			if p.elems != nil {
+				return p.elems[:n:n]
+			}
+			return termSlice(p.bytes(in)[:n])
+		}
+		panic(unsupported("unsafe.Slice on this pointer"))
 	case "ssa:wrapnilchk":
 		if p, ok := args[0].(*value); ok && p == nil {
 			in.rtPanic("value method called using nil pointer")
@@ -1350,4 +1375,21 @@ func (in *Interp) selectOp(fr *frame, instr *ssa.Select) value {
 		return res
 	}
 	panic(unsupported("blocking select with no ready case (no concurrency semantics) at " + fr.pos()))
+}
+
+// unsafeData is the result of unsafe.SliceData / unsafe.StringData.
+type unsafeData struct {
+	elems []value
+	str   value
+}
+
+func (u *unsafeData) bytes(in *Interp) []*Term {
+	if u.elems != nil || u.str == nil {
+		out := make([]*Term, len(u.elems))
+		for i, e := range u.elems {
+			out[i] = e.(*Term)
+		}
+		return out
+	}
+	return in.strBytes(u.str)
 }
